@@ -27,6 +27,17 @@ RULE_PKT = ("packets of every payload length 0..=64, 7k-1/7k/7k+1 for k in {36,3
 RULE_BLD = ("stream BLD: start frame announcing 1,2,3,256,257,4095,4096 or 1..12 frames (single or multi, either type; sometimes not a legal start frame) followed by 1..=40 frames "
             "drawn from {right next frame, duplicate, gap, id congruent mod 256, id = announced count, id beyond, other device, other error type, start frame, single-frame, "
             "non-multi, last-kinded continuation, random id, any data length}; plus complete 257- and 4096-frame reassemblies followed by surplus frames")
+RCV = dict(stream="RCV", module="RP.Glue.StreamLink")
+LNK = dict(stream="LNK", module="RP.Glue.StreamLink")
+SND = dict(stream="SND", module="RP.Glue.StreamLink")
+RULE_RCV = ("stream RCV (link, raw device script): for each of CAN / USART / serial port, a fault prefix built from the wire image of 0..=5 packets with frame-level faults (drop, duplicate, swap, "
+            "truncate mid-packet, foreign address, flipped error type, start flag flipped, random id, multi flag flipped) and byte-level faults (bit flip, length byte 0 / 255 / +-1, zero inside the body, "
+            "arbitrary raw link frames, non-zero line noise, would-block answers; on CAN standard-id, remote, random frames and overrun reports), optionally an interrupted packet of the probes' device, "
+            "then two probe packets; plus the scripts of the repaired defects F1/F2/F5/F6; every poll's result and the tokens left are observed, on the implementation also the heap held")
+RULE_LNK = ("stream LNK (link, packets, schedule): 1..=8 packets of mixed sizes (single-frame, 8/9/14/15 bytes, 200..400 bytes, thorough: 28672 bytes) written by the real sender into an always-ready "
+            "device; the recorded wire image is replayed to the receiver with 'no data yet' answers inserted by 6 gap patterns (none, before every byte/frame, periodic, random)")
+RULE_SND = ("stream SND (link, packet, device answers): USART would-block 0..=50 times before each byte and scripts that stop accepting early; CAN would-block runs, a displaced report at every frame index, "
+            "scripts that end early; serial port 1-byte writes, short writes of random sizes, interruptions, an io error or a zero-length write at a random write index, flush failure")
 RULE_DEC = ("stream DEC (decoder kind, packet): every decoder x every payload length 0..=70 with the kind's code in place and tag-like bytes; "
             "valid encodings from an independent layout table, each perturbed (error flag, every code 0..=0x12/0xffff, length +-1, truncation at a random "
             "point, bit flip, foreign decoder, every variant tag and flag byte 0..=255, 32-bit message tags incl. >= 256, non-zero padding, declared data "
@@ -53,6 +64,44 @@ PROPS = {
         level_note=NOTE_COMMON,
         streams=[dict(REA, view="view_C02", ok="ok_C02")],
         rule="stream REA: " + RULE_PKT + "; each packet goes through to_frames and the direct / CAN-codec / USART-codec paths into a fresh PacketBuilder, frames_left observed after every frame, build probed before the last frame",
+    ),
+    "C06": dict(
+        vfiles=["Props/C06"],
+        technique="Coq proof: receivers as token automata over device scripts; one link frame = one builder step (induction over the body bytes); the builder step preserves a receiver invariant and never panics on any bytes (uses the C04 totality theorems); resynchronisation holds after ANY prior state (start frames are never continuations); harness loop related to the flat run by a bridge lemma; correspondence on fault scripts",
+        level_text="Theorems C06_resync_frames (after ANY receiver state, two back-to-back packets: second intact, first intact or dropped with errors), C06_step_safe_bytes / C06_step_safe_can, "
+                   "C06_usart / C06_serial / C06_can (any sequence of whole link frames, noise and would-block answers, then two packets: no panic, no hang, probe results of the demanded shape, receiver empty).",
+        level_note=NOTE_COMMON + " Devices are scripts (lists of answers); 'blocking forever' is the explicit outcome Hang of the model; over-reading is observed by the mock devices (spin limit).",
+        streams=[dict(RCV, view="view_C06", ok="ok_C06")],
+        rule=RULE_RCV,
+    ),
+    "C13": dict(
+        vfiles=["Props/C13"],
+        technique="Coq proof: schedule insensitivity of the USART automaton (would-block tokens anywhere change only the number of 'nothing received' results), gap lemmas for CAN / serial port, frames-on-the-wire lemma composed with the reassembly theorem for packet sequences, bridge to the harness loop; correspondence through the real sender and receiver under gap patterns",
+        level_text="Theorems C13_usart (every schedule inserting 'no data yet' between any two bytes), C13_serial, C13_can (between link frames): the polls return exactly the packets sent, in order, "
+                   "otherwise only 'nothing received', and the receiver ends empty; C13_sender_wire ties the wire image to the senders' encoders; C13_polls_run relates the harness loop to the automaton.",
+        level_note=NOTE_COMMON,
+        streams=[dict(LNK, view="view_C13", ok="ok_C13")],
+        rule=RULE_LNK,
+    ),
+    "C14": dict(
+        vfiles=["Props/C14"],
+        technique="Coq proof by induction over the device's answer list for each emission loop (block! retry, write_all, displaced report), against independently stated expectations; correspondence on scripted back-pressure, the encoded frames being taken from the implementation's own fragmentation and codecs",
+        level_text="Theorems C14_usart / C14_usart_blocks (each byte exactly once, in order, under any would-block pattern; blocks rather than returns early), C14_can / C14_can_props (frames handed over once each, "
+                   "in order, up to the first displaced report, which is returned), C14_serial (prefix property, Ok only if everything written and flushed, short writes and interruptions absorbed).",
+        level_note=NOTE_COMMON + " The emission loops are verified relative to fragmentation (C10) and the frame codecs (C08/C09): encoded frames are an input.",
+        streams=[dict(SND, view="view_C14", ok="ok_C14")],
+        rule=RULE_SND,
+        assumptions=["hard write errors on USART are discarded by the code; the property demands error propagation only for the serial port and CAN (DESIGN.md section 9.3)"],
+    ),
+    "C19": dict(
+        vfiles=["Props/C19"],
+        technique="Coq proof of the bookkeeping (receiver invariant over every traffic prefix: held <= announced <= 4096, released on delivery / reassembly error, body buffer <= announced length <= 255); heap bytes measured by a counting allocator after every poll and checked against 96 + 40 * held(model)",
+        level_text="Theorems C19_bound_bytes / C19_bound_can (after any prefix of any traffic the receiver holds at most the announced frame count <= 4096), C19_released, C19_body_bound. "
+                   "PARTIAL for bytes: the allocator (Vec capacities, size_of::<Frame>() = 18) is outside the model; the check measures live heap after every poll and compares it with the proved bound on held frames.",
+        level_note=NOTE_COMMON + " Heap bytes are measured, not proved.",
+        streams=[dict(RCV, view="view_C19", ok="ok_C19")],
+        rule=RULE_RCV,
+        assumptions=["amortised Vec growth: capacity <= max(4, 2*len) frames of 18 bytes plus the builder and one link-frame buffer: 96 + 40 * held bytes"],
     ),
     "C07": dict(
         vfiles=["Props/C07"],
